@@ -34,7 +34,22 @@ class C04(Prop):
     ]
 
     def correspond(self, tier, seed, deep=False):
-        return job_check(self, "thorough" if deep else tier, seed, monitor)
+        # slow-death family: the child needs 3 s to die after SIGKILL (a process stuck in the kernel).  The model assumes that a
+        # killed child is reaped in the same step, so these histories are judged by the log monitor alone: whatever the
+        # controls, no spawn may happen while the killed child's exit status has not been collected.
+        import itertools
+        slow = []
+        enders = [{"op": "stop"}, {"op": "restart"}, {"op": "try_restart"}, {"op": "signal", "sig": "ForceStop"},
+                  {"op": "stop_with_signal", "sig": "Terminate", "grace": 50}, {"op": "restart_with_signal", "sig": "Terminate", "grace": 50},
+                  {"op": "try_restart_with_signal", "sig": "Terminate", "grace": 50}]
+        starters = [{"op": "start"}, {"op": "restart"}, {"op": "try_restart"}]
+        for a, b in itertools.product(enders, starters):
+            for gap in (0, 100, 2500, 4000):
+                ops = [{"at": 0, "op": "start", "yield": True}, dict(a, at=50, **{"yield": True}), dict(b, at=50 + gap, **{"yield": True})]
+                child = {"self_exit": None, "ignore_all": True, "kill_delay": 3000}
+                slow.append({"id": 0, "monitor_only": "slow-death", "script": {"children": [child, dict(child)], "spawn_fail": [], "signal_fail": [], "kill_fail": []},
+                             "ops": ops, "waiters": 1, "tail": 8000})
+        return job_check(self, "thorough" if deep else tier, seed, monitor, slow)
 
 
 PROP = C04()
